@@ -22,7 +22,9 @@ def run(p: Program, rep: Report, tier: str) -> None:
         "accepted: re.split with a folded pattern whose regular language is exactly {CRLF, CR, LF} (decided on the automaton) "
         "or the replace/split('\\n') chain. R19.2 block shape: every field line is '<name>: <value>' encoded with the response "
         "charset, lines are joined with b'\\n' and the block ends with two empty elements (blank line). R19.3 the ping is a "
-        "comment line block, identical on both stacks. R19.4 required headers and charset flow. Order of delivery is C06/R6.4."
+        "comment line block, identical on both stacks. R19.4 required headers and charset flow. Order of delivery is C06/R6.4. R19.5 events are not "
+        "dropped while the client is connected: the stream's 'client went away' flag is set only from a received http.disconnect, and an "
+        "item pulled from the user's iterator is always enqueued."
     )
     rep.assume("ServerSentEvent['data'] is a str (TypedDict in baize/typing.py); single-line event/id are the statement's restriction")
     F = Folder(p)
@@ -219,3 +221,17 @@ def run(p: Program, rep: Report, tier: str) -> None:
         rep.violation("R19.3", construct("baize.*.responses:SendEventResponse.render_stream", text=f"ping {pings}"), "baize/wsgi/responses.py vs baize/asgi/responses.py", "the keep-alive ping differs between the interfaces")
     rep.require_instances("R19.3", 2)
     rep.require_instances("R19.4", 10)
+
+    # ---------------------------------------------------------------- R19.5 nothing yielded is dropped on the way to the client
+    from .stream_common import closed_flag_provenance, relay_put_never_drops
+
+    for fnc in (closed_flag_provenance, relay_put_never_drops):
+        for kind, fn_, node, cons, msg in fnc(p):
+            if kind == "ok":
+                rep.analysed(fn_.fq)
+                rep.ok("R19.5", msg)
+            elif kind == "undecided":
+                rep.undecide("R19.5", msg)
+            else:
+                rep.violation("R19.5", construct(fn_, text=cons), where(fn_, node), msg)
+    rep.require_instances("R19.5", 4)
